@@ -634,8 +634,13 @@ func classify(test string, c Case, inf info) {
 			}
 		}
 	}
-	if c.Kind == "cover" {
+	if c.Shared >= 2 {
+		stats.Class(fmt.Sprintf("sharedarg:%d concurrent callers of one argument value", c.Shared))
+	}
+	if c.Kind == "cover" || c.Kind == "large" {
 		stats.Class("layout:" + c.Layout)
+	}
+	if c.Kind == "cover" {
 		if inf.inDomain {
 			stats.Class("domain:in quantifier")
 		} else {
@@ -701,7 +706,7 @@ const (
 	assumePolys    = "polygons are simple in tile space (star-shaped, comb, lattice star, rectangle; holes strictly inside and disjoint) with closed rings; anything else (checked by the harness's own simplicity test) only has to return without panic and without tiles outside its bound"
 	assumeBounds   = "orb.Bound inputs have Min <= Max; cover of a bound = every tile overlapping the rectangle"
 	assumeMerge    = "merge inputs are sets of distinct tiles of one zoom with value true; target zoom <= that zoom; MergeUpPartial is only checked for count = 4"
-	assumeReadOnly = "tile covers are read-only on their geometry argument: the argument is laid out as windows of one buffer / with spare capacity and sentinels, and its whole backing arrays must be bit-identical after the calls; unclosed ring spellings (outside the quantifier, may be refused) are included for this and for totality"
+	assumeReadOnly = "tile covers are read-only on their geometry argument: the argument is laid out as windows of one buffer (also with members sharing memory) / with spare capacity and sentinels; every element within len of every part must be bit-identical after the calls (a write that only reaches sentinel cells beyond len is counted as layout-note, not failed); unclosed ring spellings (outside the quantifier, may be refused) are included for this and for totality"
 	assumeAlias    = "results of MergeUp/MergeUpPartial must not change when another set is merged afterwards; the result may be the argument itself (documented for target = input zoom)"
 	assumeScale    = "geometries whose extent is below 2^-45 world widths (128 ulp of the largest tile fraction: 2.8e-14 tile at zoom 0, 1.2e-7 tile at zoom 22) may collapse to one tile fraction and count as zero-length (nothing required); above it a geometry is decided however short its segments are, and the cover holds, for each vertex, a tile within 1e-6 tile of it"
 	assumeMembers  = "tiles of a maptile.Set are its keys with value true"
@@ -713,8 +718,9 @@ func assumptions() {
 	}
 }
 
-// 40 % shared buffer, 40 % spare capacity, 20 % plain
-var layouts = []string{"shared", "shared", "spare", "spare", "plain"}
+// 2/7 shared buffer, 2/7 spare capacity, 2/7 alias (members with equal content or
+// contained in each other share memory), 1/7 plain
+var layouts = []string{"shared", "alias", "spare", "shared", "spare", "alias", "plain"}
 
 // drawCase draws one cover case. heavy = false leaves out the two expensive
 // classes (polygons hundreds of tiles across, lines of > 2e4 micro steps) so that
@@ -722,7 +728,7 @@ var layouts = []string{"shared", "shared", "spare", "spare", "plain"}
 func drawCase(rt *rapid.T, heavy bool) Case {
 	z := uint32(rapid.IntRange(0, 22).Draw(rt, "z"))
 	s := newTS(z)
-	layout := layouts[rapid.IntRange(0, 4).Draw(rt, "layout")]
+	layout := layouts[rapid.IntRange(0, len(layouts)-1).Draw(rt, "layout")]
 	c := Case{Kind: "cover", Z: z, Target: genTarget(rt, z), Layout: layout}
 	// densified lines cost ~20 us per vertex (four walks by orb, the model, the
 	// layout guard): they are rare and capped per tier
@@ -734,14 +740,46 @@ func drawCase(rt *rapid.T, heavy bool) Case {
 	if !heavy {
 		denseOdds, maxN = 100, 2000
 	}
+	// the same argument value used by 2..6 concurrent callers (L4)
+	if heavy {
+		switch rapid.IntRange(0, 31).Draw(rt, "sharedarg") {
+		case 29:
+			c.Shared = 2
+		case 30:
+			c.Shared = 3
+		case 31:
+			c.Shared = 5
+		}
+	}
 	switch sel := rapid.IntRange(0, denseOdds-1).Draw(rt, "scale"); {
 	case sel == denseOdds/2+1: // not 0: rapid draws small values far more often than 1/denseOdds
 		d, class := genDense(rt, s, maxN)
-		c.Dense, c.Class = &d, class
+		c.Dense, c.Class, c.Shared = &d, class, 0
 		return c
+	case sel == denseOdds/2+2 || sel == denseOdds/2+3:
+		// a random rung of a size ladder (see large_test.go), small enough for every tier
+		largeTop := float64(1 << 13)
+		if !heavy {
+			largeTop = 256 // repeated 20 times by up to 8 goroutines
+		}
+		d := ladderDims[rapid.IntRange(0, len(ladderDims)-1).Draw(rt, "ldim")]
+		l := Large{Dim: d.name, Shape: d.shapes[rapid.IntRange(0, len(d.shapes)-1).Draw(rt, "lshape")], Size: int(logUniform(rt, 6, largeTop, "lsize")), Pos: rapid.IntRange(0, d.positions-1).Draw(rt, "lpos")}
+		if d.name == "members" && l.Pos > 0 && l.Shape != "multipoint" {
+			l.Huge = int(logUniform(rt, 64, 2*largeTop, "lhuge"))
+		}
+		if zmin, ok := minZoom(l); ok {
+			c.Kind, c.Class, c.Large, c.Shared = "large", "large/"+l.Dim+"/"+l.Shape, &l, 0
+			c.Z = uint32(rapid.IntRange(int(zmin), 22).Draw(rt, "lz"))
+			c.Target = genTarget(rt, c.Z)
+			return c
+		}
 	case sel%6 == 1:
 		g, class := genMicro(rt, s)
 		c.G, c.Class = gen.G{V: g}, class
+		return c
+	case sel%6 == 2 && sel%12 == 2:
+		g, class := genAlias(rt, s)
+		c.G, c.Class, c.Layout = gen.G{V: g}, class, "alias"
 		return c
 	}
 	g, class := genGeom(rt, s, 0)
